@@ -235,8 +235,11 @@ def run(ctx):
     con = dict(wfn.SPACE)["contraction"]
     mos = dict(wfn.SPACE)["mo"]
     shellsets = ["+d-cart", "+d-pure"] if ctx.thorough else ["+d-cart"]
-    for c, m, ss in itertools.product(con, mos, shellsets):
-        case = dict(default, contraction=c, mo=m, shellset=ss)
+    orders = ["grouped", "reversed", "interleaved"] if not ctx.thorough else dict(wfn.SPACE)["shell_order"]
+    for c, m, ss, so in itertools.product(con, mos, shellsets, orders):
+        if so != "grouped" and not (c == "segmented" or m == "restricted"):
+            continue  # shell order is crossed with each of the two conversion axes, not with both at once
+        case = dict(default, contraction=c, mo=m, shellset=ss, shell_order=so)
         for target in wfn.TARGETS:
             for allow in (False, True):
                 jobs.append(("wf", target, case, allow, 1, False))
